@@ -7,8 +7,10 @@
 (***************************************************************************)
 EXTENDS TableGen, Json
 
-CONSTANTS M,     \* universe 0..M-1
-          NV     \* attribute values 1..NV
+CONSTANTS M,          \* universe 0..M-1
+          NV,         \* attribute values 1..NV
+          WfOnly  \* TRUE: only well-formed inputs (C15); FALSE: any sequence of single/first/last lines in
+                      \* increasing code point order, to exercise the rejecting transitions of First/Last folding
 
 U == 0..(M - 1)
 Vals == 1..NV
@@ -26,9 +28,10 @@ Init == /\ lines = <<>> /\ last = -1 /\ fold = FoldInit
 \* well-formed input: strictly increasing code points; a First line is followed by its Last line with the same attributes
 AddLine(cp, kind, v) ==
   /\ cp > last /\ cp \in U
-  /\ (fold.pending # -1) => (kind = "last" /\ v = fold.pv)
-  /\ (fold.pending = -1) => kind \in {"single", "first"}
-  /\ kind = "first" => cp < M - 1
+  /\ WfOnly => ( /\ ((fold.pending # -1) => (kind = "last" /\ v = fold.pv))
+                  /\ ((fold.pending = -1) => kind \in {"single", "first"})
+                  /\ (kind = "first" => cp < M - 1) )
+  /\ fold.err = ""                                   \* the code stops at the first error
   /\ LET line == [cp |-> cp, kind |-> kind, v |-> v]
          f == FoldStep(fold, line) IN
        /\ lines' = Append(lines, line)
@@ -89,7 +92,25 @@ WidthFaithful == Complete =>
   /\ \A i \in 1..Len(WmTable) : WmTable[i].t = WmTarget(Hi(WmTable[i].x))
   /\ Sorted(WmKeys)
 
+\* ---- malformed inputs: the folding either rejects with the right error, or (a First line at the very end of
+\* the file) silently ignores the open range.  Deviation named here: the code does not report a dangling First.
+FoldErrorIsJustified == fold.err # "" =>
+  LET n == Len(lines)  lastl == lines[n] IN
+    \/ fold.err = "expected end of range" /\ n >= 2 /\ lines[n - 1].kind = "first" /\ lastl.kind # "last"
+    \/ fold.err = "end of range without start" /\ lastl.kind = "last" /\ (n = 1 \/ lines[n - 1].kind # "first")
+    \/ fold.err = "start greater than end"
+EveryMalformationIsRejected == (fold.err = "" /\ Len(lines) >= 1) =>
+  \A i \in 1..Len(lines) :
+     /\ lines[i].kind = "last" => (i > 1 /\ lines[i - 1].kind = "first")
+     /\ (lines[i].kind = "first" /\ i < Len(lines)) => lines[i + 1].kind = "last"
+
 Den(t) == [cp \in U |-> \E i \in 1..Len(t) : Contains(t[i], cp)]
+EmitErr == (fold.err # "") => PrintT(<<"REPLAY", ToJson([k |-> "generr", m |-> M, lines |-> lines, err |-> fold.err])>>)
+\* a First line at the very end of the file: the code silently ignores the open range (named deviation)
+EmitDangling == (~WfOnly /\ fold.pending # -1 /\ fold.err = "") => PrintT(<<"REPLAY", ToJson([k |-> "gen", m |-> M, lines |-> lines,
+          gc |-> Den(GcTable), vir |-> Den(VirTable), un |-> Den(UnTable),
+          bidi |-> [cp \in U |-> IF KeyedSearch(BidiTable, cp) = 0 THEN "-" ELSE BidiTable[KeyedSearch(BidiTable, cp)].c],
+          wm |-> [cp \in U |-> IF KeyedSearch(WmTable, cp) = 0 THEN -1 ELSE WmTable[KeyedSearch(WmTable, cp)].t]])>>)
 Emit == Complete => PrintT(<<"REPLAY", ToJson([k |-> "gen", m |-> M, lines |-> lines,
           gc |-> Den(GcTable), vir |-> Den(VirTable), un |-> Den(UnTable),
           bidi |-> [cp \in U |-> IF KeyedSearch(BidiTable, cp) = 0 THEN "-" ELSE BidiTable[KeyedSearch(BidiTable, cp)].c],
